@@ -44,6 +44,9 @@ def race_loop(fn):
     return loops
 
 
+from ..rulelib import before as _before
+
+
 def exit_rule(ctx, facts):
     fid = POM + "hash_set"
     fn = facts.fn(fid)
@@ -69,19 +72,27 @@ def exit_rule(ctx, facts):
             continue
         conds = nf.all_conditions(t, node, stop=loop)
         inner = conds[0] if conds else None
-        cls = None
-        if inner is not None:
-            if inner[0] == "cmp" and inner[2] in ("<=", "<") and inner[1] == "self.max_tracker.get_max_value()" and inner[3] == x:
-                cls = "MAX"
-            elif inner == ("truth", "self.max_tracker.is_update_possible(%s)" % x, False):
-                cls = "MAX"
-            elif inner[0] == "cmp" and inner[2] in ("<=", "<") and inner[1] == "self.m":
+
+        def classify(it):
+            if it is None:
+                return None
+            if it[0] == "cmp" and it[2] in ("<=", "<") and it[1] == "self.max_tracker.get_max_value()" and it[3] == x:
+                return "MAX"
+            if it == ("truth", "self.max_tracker.is_update_possible(%s)" % x, False):
+                return "MAX"
+            if it[0] == "cmp" and it[2] in ("<=", "<") and it[1] == "self.m":
                 # slot-count bound: the other side is <counter> or <counter> + 1 for a local that starts at 0 and is incremented once per draw
-                mm = re.match(r"^\(?(?:1 \+ )?([A-Za-z_][A-Za-z0-9_]*)\)?$", inner[3])
+                mm = re.match(r"^\(?(?:1 \+ )?([A-Za-z_][A-Za-z0-9_]*)\)?$", it[3])
                 if mm:
                     ds = [nf.nf(d) for d in def_exprs(fn, mm.group(1))]
                     if ds == ["0", "%s += 1" % mm.group(1)]:
-                        cls = "COUNT"
+                        return "COUNT"
+            if it[0] == "or":
+                # `if A || B { break }`: every alternative must be a legitimate reason on its own
+                cl = [classify(alt[0]) if len(alt) == 1 else None for alt in it[1]]
+                return "+".join(cl) if cl and all(cl) else None
+            return None
+        cls = classify(inner)
         if cls and (kind == "guard" or len(conds) == 1 or all(c == conds[0] or c[0] == "cmp" and c[3] == "self.max_tracker.get_max_value()" for c in conds)):
             ctx.ok("EXIT", fid, "%s exit (%s) when %s" % (kind, cls, inner), where)
         else:
@@ -234,7 +245,7 @@ def store_track(ctx, facts):
         ctx.violation("STORE-TRACK", fid, "tracker report", where, "expected one insertion `values[..] = *value` and one tracker update per accepted value; found %d / %d" % (len(ins), len(ups)))
         return
     u = ups[0]
-    conds = nf.all_conditions(t, u, res=R)
+    conds = nf.control_facts(t, u, res=R)
     a0, a1 = nf.nf(u["args"][0], True, res=R), nf.nf(u["args"][1], True, res=R)
     lasts = {"self.values[(((%s * self.l) + self.l) - 1)]" % P_POS, "self.values[(((self.l * %s) + self.l) - 1)]" % P_POS, "self.values[((self.l + (%s * self.l)) - 1)]" % P_POS,
              "self.values[((self.l + (self.l * %s)) - 1)]" % P_POS, "self.values[((%s * self.l) + (self.l - 1))]" % P_POS, "self.values[((self.l * %s) + (self.l - 1))]" % P_POS}
@@ -356,7 +367,7 @@ def signature_rules(ctx, facts):
     RES = nf.nf(body["expr"]) if "expr" in body else None
     pushes = [x for x in user_nodes(fn) if x["k"] == "MethodCall" and x["name"] == "push" and nf.nf(x["recv"]) == RES]
     if len(pushes) == 1 and t.contains(o["body"], pushes[0]) and not nf.all_conditions(t, pushes[0], stop=o["loop"]) and len(t.enclosing_loops(pushes[0])) == 1 \
-            and CH and nf.nf(pushes[0]["args"][0], True) == "%s.finish()" % CH and writes and writes[0]["sp"][1] < pushes[0]["sp"][1]:
+            and CH and nf.nf(pushes[0]["args"][0], True) == "%s.finish()" % CH and writes and _before(fn, writes[0], pushes[0]):
         ctx.ok("MUSTPASS", fid, "one unconditional push of combine_hasher.finish() per position, after the hashing loop", hirq.loc(pushes[0]))
     else:
         ctx.violation("MUSTPASS", fid, "result push", hirq.loc(o["loop"]), "expected exactly one unconditional push of the combining hasher's finish() onto the returned vector per position, after the hashing loop")
@@ -392,7 +403,7 @@ def run(ctx, facts):
         "values/indices stored, sort-before-hash and per-position combination in create_signature, per-element permutation reset.")
     ctx.not_decided[:] = ["that the selected pairs are the l smallest as a value-level fact (array invariant of the insertion sort)"]
     e = exit_rule(ctx, facts)
-    ctx.floor("C11 race loop exits", e, 3)
+    ctx.floor("C11 race loop exits", e, 2)
     s = seed_rule(ctx, facts)
     ctx.floor("C11 seeding sites", s, 1)
     occurrence_rule(ctx, facts)
